@@ -388,6 +388,20 @@ def _gen_pal(pal, thorough):
                     for orient in (0, 1):
                         yield make(2, fam, pal, U, att=att, W='n1', okind=okind, orient=orient, pw=True, pwoff=off,
                                    attach='list' if orient else 'args')
+    # P13: retarget histories - every per-constraint set is first a decoy (small box), the model is formulated once
+    #      (solve / do_math / dual / both), then forall(declared set) is called on the already stated constraint objects
+    for U in ('box', 'boxhalf', 'abs', 'n1', 'seg', 'n2', 'pn3', 'kl', 'expc', 'n1^box') if not thorough else names2:
+        if U not in cat2:
+            continue
+        for mode in ('S', 'P', 'D', 'PD'):
+            for fam in ('S', 'L1'):
+                for att, okind in (('forall', 'min'), ('forall_mixed', 'min_pw'), ('first_own', 'minmax'), ('all_own', 'minmax')):
+                    for kw in ({}, {'vec': True}, {'pw': True}):
+                        sp = make(2, fam, pal, U, att=att, W='n1' if U != 'n1' else 'box', okind=okind,
+                                  attach=ATTACH[(len(mode) + len(att)) % len(ATTACH)], **kw)
+                        sp['retarget'] = mode
+                        sp['tag'] += '|retarget:' + mode
+                        yield sp
     # P6: robust equalities (feasible: coefficients inside the mask; infeasible otherwise)
     for U in ('box', 'n1', 'n2', 'seg', 'fixed', 'kl', 'boxmix'):
         for mask in all_masks(1, 2):
